@@ -215,8 +215,8 @@ int main (int argc, char **argv)
       for (t = 1; t < nthreads; t++) pthread_join (th[t], NULL);
       pthread_barrier_destroy (&bar);
 
-      /* collect the replies of the 'c' calls: the peer answers every call, so this ends; 60 s is a watchdog */
-      until = now_ms () + 60000;
+      /* collect the replies of the 'c' calls: the peer answers every call, so this ends; 20 s is a watchdog */
+      until = now_ms () + 20000;
       for (;;)
         {
           left = 0;
